@@ -40,6 +40,23 @@ def set_cursor_fields(view):
         ci = cursor_info(view, f)
         if T and ci["cursor"]:
             CURSOR_FIELDS[(T, ci["cursor"])] = "front" if f.name == "next" else "back"
+    # hand-written safe cursor iterators that obey the cursor discipline (R-SELFMADE, run by the same check)
+    from .rules_iter import r_selfmade, selfmade_types, _len_shape, self_field
+    from .rules_sift import Skel
+    try:
+        res = r_selfmade(None, view, fixture=True)
+    except Exception:
+        res = {}
+    sk = Skel(view)
+    for (T, nx, nb, ln) in selfmade_types(view):
+        if ln is None or T not in res or res[T][0]:
+            continue
+        cx, cy, X, Y = _len_shape(view, sk, ln)
+        tp = (nx.j.get("impl_self") or {}).get("path")
+        if tp and Y is not None and self_field(Y):
+            CURSOR_FIELDS[(tp, self_field(Y))] = "front"
+        if tp and X is not None and self_field(X):
+            CURSOR_FIELDS[(tp, self_field(X))] = "back"
 
 
 def is_cursor(t, role=None):
@@ -62,6 +79,8 @@ def unit_of(t, depth=0):
             return "Index"
         base = strip(t[1])
         # tuple results of the indexmap API: .0 is the slot index
+        if t[2] in (0, "0") and base[0] == "binop":
+            return unit_of(base, depth + 1)   # value half of a checked-arithmetic pair
         if t[2] in (0, "0"):
             b = base
             if b[0] == "some":
@@ -76,6 +95,12 @@ def unit_of(t, depth=0):
         nm = t[1].split("::")[-1]
         if nm == "index" and "Entry" in t[1]:
             return "Index"
+        return None
+    if k == "binop" and t[1].startswith(("Add", "Sub")):
+        # a neighbour of a slot is a slot (cursor - 1)
+        ua, ub = unit_of(t[2], depth + 1), unit_of(t[3], depth + 1)
+        if ub == "const" and ua not in (None, "const"):
+            return ua
         return None
     if k in ("phi", "mu"):
         alts = t[4] if k == "phi" else t[1]
@@ -444,8 +469,8 @@ class RB:
                     mark(ev["bb"], not op.startswith("Add"), not op.startswith("Sub"), "size")
             elif k in ("mw", "mwraw"):
                 mc = ev.get("mclass", "raw")
-                if mc in ("shrink", "clear", "retain", "raw"):
-                    mark(ev["bb"], True, mc == "raw", "map")
+                if mc in ("shrink", "clear", "retain", "raw", "replace"):
+                    mark(ev["bb"], True, mc in ("raw", "replace"), "map")
                 elif mc == "grow":
                     mark(ev["bb"], False, True, "map")
             if "ci" in ev:
